@@ -205,6 +205,23 @@ class SVBackendImpl:
             for callback in self._config.observables
             if self._is_evaluation_time(callback, norm_time)
         ]
+        if (
+            callbacks_for_current_time_step
+            and step_idx > 0
+            and self._hamiltonian_requires_grad(step_idx - 1)
+        ):
+            # the Hamiltonian returned by the stepper is built without autograd:
+            # rebuild it so that energy observables depend on the drive parameters
+            self._current_H = self.stepper.get_hamiltonian(
+                omegas=self.omega[step_idx - 1],
+                deltas=self.delta[step_idx - 1],
+                phis=self.phi[step_idx - 1],
+                pulser_lindblads=self.pulser_lindblads,
+                interaction_matrix=self.interaction_matrix(
+                    self.target_times[step_idx - 1]
+                ),
+                device=self.state.data.device,
+            )
         if not self._current_H and callbacks_for_current_time_step:
             self._current_H = self.stepper.get_hamiltonian(
                 omegas=self.omega[0],
@@ -224,6 +241,19 @@ class SVBackendImpl:
                 self._current_H,  # type: ignore[arg-type]
                 self.results,
             )
+
+    def _hamiltonian_requires_grad(self, step_idx: int) -> bool:
+        if not torch.is_grad_enabled() or self.pulser_lindblads:
+            return False
+        return any(
+            tensor.requires_grad
+            for tensor in (
+                self.omega[step_idx],
+                self.delta[step_idx],
+                self.phi[step_idx],
+                self.interaction_matrix(self.target_times[step_idx]),
+            )
+        )
 
     def _save_statistics(self, step_idx: int) -> None:
         norm_time = self.target_times[step_idx] / self.target_times[-1]
